@@ -22,12 +22,7 @@ func (e *Enc) ghostGet(st *State, key string) string {
 		return t
 	}
 	// entry value shared by all states of this query
-	name := "|G0_" + sanitize(key) + "|"
-	if _, ok := e.q.consts[name]; !ok {
-		e.q.consts[name] = e.q.ghostSort(key)
-		e.q.decls = append(e.q.decls, fmt.Sprintf("(declare-const %s %s)", name, e.q.ghostSort(key)))
-	}
-	return name
+	return e.q.ghostEntry(key)
 }
 
 func (e *Enc) ghostSet(st *State, key, term string) {
@@ -469,16 +464,19 @@ func (e *Enc) runDefers(fr *frame, st *State, x *ssa.RunDefers) {
 // loops
 
 // loopWrites computes the heap keys written inside a loop (or all=true).
-func (e *Enc) loopWrites(fr *frame, li *loopInfo) (keys map[string]bool, all bool, ghosts bool) {
+func (e *Enc) loopWrites(fr *frame, li *loopInfo) (keys map[string]bool, all bool, ghosts bool, closes bool) {
 	keys = map[string]bool{}
 	for b := range li.blocks {
 		for _, ins := range b.Instrs {
-			k, a, g := e.v.instrWrites(e, ins)
+			k, a, g := e.v.instrWrites(e, ins, fr)
 			if a {
 				all = true
 			}
 			if g {
 				ghosts = true
+			}
+			if e.v.instrCloses(ins) {
+				closes = true
 			}
 			for _, kk := range k {
 				keys[kk] = true
@@ -499,7 +497,7 @@ func (e *Enc) loopHead(fr *frame, b *ssa.BasicBlock, li *loopInfo, st *State, np
 	}
 	preLoop := st.clone()
 	// 2. havoc
-	keys, all, ghosts := e.loopWrites(fr, li)
+	keys, all, ghosts, closes := e.loopWrites(fr, li)
 	if all {
 		st.havocAll(e.localRefs, e.ownedKeyFilterFor(fr))
 	} else {
@@ -509,7 +507,21 @@ func (e *Enc) loopHead(fr *frame, b *ssa.BasicBlock, li *loopInfo, st *State, np
 		}
 		sort.Strings(ks)
 		for _, k := range ks {
+			pre := st.get(k)
 			st.havocKey(k, nil)
+			// candidate frame invariant (Houdini): the loop does not change
+			// locations that existed before the loop was entered.
+			id := fmt.Sprintf("%s|%s#%d|%s", funcDisplayName(e.top), fr.prefix, b.Index, k)
+			if !e.v.autoFrameOff[id] && !e.frameWhole[k] && strings.HasPrefix(e.q.sortOfKey(k), "(Array Int ") {
+				r := e.q.freshBound("r")
+				e.v.declFun("broot", "(Int) Int")
+				guard := []string{"(< " + rootOf(r) + " " + preLoop.ap + ")"}
+				for _, idx := range e.frameAllowed[k] {
+					guard = append(guard, "(not (= "+r+" "+idx+"))")
+				}
+				st.assume(fmt.Sprintf("(forall ((%[1]s Int)) (! (=> %[2]s (= (select %[3]s %[1]s) (select %[4]s %[1]s))) :pattern ((select %[3]s %[1]s))))", r, and(guard...), st.get(k), pre))
+				fr.autoFrames[b] = append(fr.autoFrames[b], autoFrame{id: id, key: k, pre: pre, ap: preLoop.ap, except: e.frameAllowed[k]})
+			}
 		}
 		nap := e.q.fresh("ap", sortInt)
 		st.assume("(<= " + st.ap + " " + nap + ")")
@@ -523,13 +535,17 @@ func (e *Enc) loopHead(fr *frame, b *ssa.BasicBlock, li *loopInfo, st *State, np
 			}
 			continue
 		}
-		if ghosts || all {
+	}
+	for _, k := range []string{ghostSendCount, ghostClosed} {
+		if all || (k == ghostSendCount && ghosts) || (k == ghostClosed && closes) {
+			e.ghostGet(st, k)
 			st.ghost[k] = e.q.fresh("gh_"+k, e.q.ghostSort(k))
 		}
 	}
-	if ghosts || all {
-		for _, k := range []string{ghostSendCount, ghostClosed} {
-			if _, ok := st.ghost[k]; !ok {
+	if e.contract != nil {
+		for _, cc := range e.contract.CallCounts {
+			if loopCalls(li, cc.Callee) {
+				k := callCountKey(cc.Callee)
 				e.ghostGet(st, k)
 				st.ghost[k] = e.q.fresh("gh_"+k, e.q.ghostSort(k))
 			}
@@ -540,8 +556,9 @@ func (e *Enc) loopHead(fr *frame, b *ssa.BasicBlock, li *loopInfo, st *State, np
 	}
 	// phis
 	type autoInv struct {
-		phi *ssa.Phi
-		lo  string
+		phi       *ssa.Phi
+		op, bound string
+		id        string
 	}
 	var autos []autoInv
 	for _, ins := range b.Instrs[:nphi] {
@@ -550,17 +567,26 @@ func (e *Enc) loopHead(fr *frame, b *ssa.BasicBlock, li *loopInfo, st *State, np
 		nv := e.freshValue(st, fr.prefix+phi.Name()+"_loop", phi.Type())
 		nv.clo = nil
 		fr.vals[phi] = nv
-		// auto invariant: counter with constant start and positive constant steps
+		// auto invariants (Houdini candidates): counter with constant start
+		// and positive constant steps stays >= start and below the maximum
+		// of its type (so that the increment does not wrap).
 		if lo, ok := counterPhi(phi, li); ok {
-			autos = append(autos, autoInv{phi, lo})
-			st.assume("(>= " + nv.term + " " + lo + ")")
+			_, hi, _ := intRange(phi.Type())
+			for _, cand := range []struct{ tag, op, bound string }{{"lo", ">=", lo}, {"hi", "<", hi.String()}} {
+				id := fmt.Sprintf("%s|%s#%d|counter:%s:%s", funcDisplayName(e.top), fr.prefix, b.Index, phi.Name(), cand.tag)
+				if e.v.autoFrameOff[id] {
+					continue
+				}
+				autos = append(autos, autoInv{phi, cand.op, cand.bound, id})
+				st.assume("(" + cand.op + " " + nv.term + " " + cand.bound + ")")
+			}
 		}
 		_ = entryVal
 	}
 	if len(autos) > 0 {
 		fr.autoInvs[b] = nil
 		for _, a := range autos {
-			fr.autoInvs[b] = append(fr.autoInvs[b], autoInvRec{a.phi, a.lo})
+			fr.autoInvs[b] = append(fr.autoInvs[b], autoInvRec{a.phi, a.op, a.bound, a.id})
 		}
 	}
 	// 3. assume invariants
@@ -568,15 +594,21 @@ func (e *Enc) loopHead(fr *frame, b *ssa.BasicBlock, li *loopInfo, st *State, np
 		env := e.loopEnv(fr, b, st, spec)
 		env.old = entryEnv.old
 		for _, inv := range spec.Invariants {
-			st.assume(e.evalClause(env, inv))
+			st.assume(e.evalClauseAssume(env, inv))
 		}
 	}
 	fr.preLoop[b] = preLoop
 }
 
+type autoFrame struct {
+	id, key, pre, ap string
+	except           []string
+}
+
 type autoInvRec struct {
-	phi *ssa.Phi
-	lo  string
+	phi       *ssa.Phi
+	op, bound string
+	id        string
 }
 
 // counterPhi recognises i = phi [c, i+k, ...] with constant c and k > 0.
@@ -676,7 +708,21 @@ func (e *Enc) loopBack(fr *frame, head *ssa.BasicBlock, li *loopInfo, from *ssa.
 		fr.vals[phi] = v
 	}
 	for _, a := range fr.autoInvs[head] {
-		e.oblige(st, "invariant-auto", a.phi.Comment, "(>= "+fr.vals[a.phi].term+" "+a.lo+")", head.Instrs[0].Pos())
+		cond := "(" + a.op + " " + fr.vals[a.phi].term + " " + a.bound + ")"
+		o := &Obligation{Name: "autoinv:" + a.id + fmt.Sprintf("@%d", from.Index), Kind: "autoframe", Func: funcDisplayName(e.top), reach: st.reach, cond: cond, Expect: a.id}
+		o.NDecls = len(e.q.decls)
+		e.autoObls = append(e.autoObls, o)
+	}
+	for _, af := range fr.autoFrames[head] {
+		w := e.q.fresh("w", sortInt)
+		guard := []string{"(< " + rootOf(w) + " " + af.ap + ")"}
+		for _, idx := range af.except {
+			guard = append(guard, "(not (= "+w+" "+idx+"))")
+		}
+		cond := fmt.Sprintf("(=> %s (= (select %s %s) (select %s %s)))", and(guard...), st.get(af.key), w, af.pre, w)
+		o := &Obligation{Name: "autoframe:" + af.id + fmt.Sprintf("@%d", from.Index), Kind: "autoframe", Func: funcDisplayName(e.top), reach: st.reach, cond: cond, Expect: af.id}
+		o.NDecls = len(e.q.decls)
+		e.autoObls = append(e.autoObls, o)
 	}
 	if spec != nil {
 		fr.envBlock = head
@@ -692,3 +738,34 @@ func (e *Enc) loopBack(fr *frame, head *ssa.BasicBlock, li *loopInfo, from *ssa.
 }
 
 func (e *Enc) ownedKeyFilterFor(fr *frame) func(string) bool { return e.ownedKeyFilter() }
+
+// loopCalls: does the loop contain a call of a function with that name?
+func loopCalls(li *loopInfo, callee string) bool {
+	for b := range li.blocks {
+		for _, ins := range b.Instrs {
+			var c *ssa.CallCommon
+			switch x := ins.(type) {
+			case *ssa.Call:
+				c = x.Common()
+			case *ssa.Defer:
+				c = x.Common()
+			}
+			if c == nil {
+				continue
+			}
+			if c.IsInvoke() {
+				if c.Method.Name() == callee {
+					return true
+				}
+				continue
+			}
+			if fn := c.StaticCallee(); fn != nil && fn.Name() == callee {
+				return true
+			}
+			if _, ok := c.Value.(*ssa.Function); !ok {
+				return true // dynamic call: be conservative
+			}
+		}
+	}
+	return false
+}
